@@ -137,16 +137,25 @@ impl Nested for OrS {
     }
     fn gen_undotted(cur: &Self, read: &Self, d: &DDesc) -> Result<Self::NOp, String> {
         match d {
-            DDesc::SetRm { m } => Ok(cur.rm(*m, read.contains(m).derive_rm_ctx())),
+            DDesc::SetRm { m } => {
+                // the same context, with and without going through ReadCtx::split
+                let (present, ctx) = read.contains(m).split();
+                let direct = read.contains(m);
+                if present != direct.val || ctx.rm_clock != direct.rm_clock || ctx.add_clock != direct.add_clock {
+                    return Err("ReadCtx::split changed the context".to_string());
+                }
+                Ok(cur.rm(*m, ctx.derive_rm_ctx()))
+            }
             DDesc::SetRmAll { ms } => Ok(cur.rm_all(ms.clone(), read.read().derive_rm_ctx())),
             o => Err(format!("descriptor {:?} is not an undotted set op", o)),
         }
     }
     fn top_add_ctx(read: &Self, actor: u8, via: u8) -> AddCtx<u8> {
-        match via % 4 {
+        match via % 5 {
             0 => read.read_ctx().derive_add_ctx(actor),
             1 => read.read().derive_add_ctx(actor),
             2 => read.contains(&(via % UNIV)).derive_add_ctx(actor),
+            3 => read.read().split().1.derive_add_ctx(actor),
             _ => match read.iter().next() {
                 Some(it) => it.derive_add_ctx(actor),
                 None => read.read_ctx().derive_add_ctx(actor),
@@ -661,7 +670,14 @@ impl Sut for SVClock {
     }
     fn obs(&self) -> Obs {
         let c = clk(&self.0);
+        if self.0.is_empty() != c.is_empty() {
+            return Obs::Panic("VClock::is_empty disagrees with iter()".to_string());
+        }
         for (a, n) in c.iter() {
+            let d = self.0.dot(*a);
+            if d.actor != *a || d.counter != *n || self.0.inc(*a).counter != *n + 1 {
+                return Obs::Panic(format!("VClock::dot/inc for actor {} disagree with get()", a));
+            }
             if self.0.get(a) != *n {
                 return Obs::Panic(format!("VClock::get({}) = {} but iter() yields {}", a, self.0.get(a), n));
             }
@@ -703,7 +719,17 @@ impl Sut for SGSet {
         }
     }
     fn obs(&self) -> Obs {
-        Obs::SetU(self.0.read())
+        let r = self.0.read();
+        for v in 0..8u64 {
+            if self.0.contains(&v) != r.contains(&v) {
+                return Obs::Panic(format!("GSet::contains({}) disagrees with read()", v));
+            }
+        }
+        let as_set: std::collections::BTreeSet<u64> = self.0.clone().into();
+        if as_set != r {
+            return Obs::Panic("From<GSet> for BTreeSet disagrees with read()".to_string());
+        }
+        Obs::SetU(r)
     }
     fn op_info(_op: &Self::Op) -> OpInfo {
         OpInfo::default()
@@ -907,6 +933,18 @@ impl Sut for SList {
         let into: Vec<u64> = self.0.clone().read_into();
         if into != vals {
             notes.push("read_into() disagrees with read()".to_string());
+        }
+        let via_into_iter: Vec<u64> = self.0.clone().into_iter().collect();
+        if via_into_iter != vals {
+            notes.push("into_iter() disagrees with read()".to_string());
+        }
+        if self.0.first_entry().map(|e| e.1) != vals.first() || self.0.last_entry().map(|e| e.1) != vals.last() {
+            notes.push("first_entry()/last_entry() disagree with read()".to_string());
+        }
+        if let (Some((fid, _)), Some((lid, _))) = (self.0.first_entry(), self.0.last_entry()) {
+            if self.0.position_entry(fid) != Some(0) || self.0.position_entry(lid) != Some(vals.len() - 1) {
+                notes.push("position_entry of first/last entry is wrong".to_string());
+            }
         }
         Obs::Seq { vals, notes }
     }
